@@ -36,6 +36,7 @@ static const char *METHODS[] = {"GET", "POST", "PUT", "DELETE", "HEAD", "OPTIONS
 //       (cfg gate=1: a middleware in front of the handler keeps the NextFunc it was given and calls it inline / from runNext / from a timer)
 //   seg <size> <dt_ms>                     segment sizes, used cyclically (only in the segmented delivery)
 //   mut <pos> <val>    junk <len> <seed>   cut <after_bytes>         (hostile plans)
+//   tgt <which>        (hostile plans) a request whose target holds a broken percent escape (bytes >= 0x80, non-hex, cut off), in front of the stream
 void generate(sim::Rng &r, uint64_t seed, const std::string &tier, sim::Plan &p) {
   bool thorough = tier == "thorough";
   bool hostile = r.chance(350);
@@ -78,7 +79,8 @@ void generate(sim::Rng &r, uint64_t seed, const std::string &tier, sim::Plan &p)
       sim::Op op;
       unsigned x = (unsigned)r.below(100);
       static const long vals[] = {0, '\n', '\r', ' ', ':', '-', '9', 'x', 0x80, 0xff, '/', '?', '%', '&', '='};
-      if (x < 70) { op.kind = "mut"; op.a = {(long)r.below(100000), vals[r.below(15)]}; }
+      if (x < 12) { op.kind = "tgt"; op.a = {(long)r.below(16)}; }
+      else if (x < 70) { op.kind = "mut"; op.a = {(long)r.below(100000), vals[r.below(15)]}; }
       else if (x < 90) { op.kind = "junk"; op.a = {r.range(1, 300), (long)(r.next() & 0xffff)}; }
       else { op.kind = "cut"; op.a = {(long)r.below(5000)}; }
       p.ops.push_back(op);
@@ -99,7 +101,8 @@ std::string build_stream(const sim::Plan &plan, std::vector<Truth> &truth) {
     bool v10 = op.arg(2) != 0;
     long conn = ((op.arg(3) % 6) + 6) % 6;     // 0 none, 1 close, 2 keep-alive, 3 "TE, close", 4 "close, TE", 5 "keep-alive, TE"
     long bl = std::max(0L, std::min(100000L, op.arg(4)));
-    std::string path = "/a" + std::to_string(tgt);
+    std::string path = "/a" + std::to_string(tgt), wire_path = path;
+    if (tgt % 7 == 3) { wire_path = path + "%2Fx%41%7e"; path += "/xA~"; }      // percent escapes in the path: the handler sees the decoded path
     std::string query_k = "q", query_v = std::to_string(idx);
     std::string body;
     for (long i = 0; i < bl; ++i) {
@@ -116,7 +119,7 @@ std::string build_stream(const sim::Plan &plan, std::vector<Truth> &truth) {
     if (conn != 0) hdr.push_back({"Connection", CONNV[conn]});
     hdr.push_back({"Content-Length", std::to_string(bl)});
     std::string ver = v10 ? "HTTP/1.0" : "HTTP/1.1";
-    s += std::string(m) + " " + path + "?" + query_k + "=" + query_v + " " + ver + "\r\n";
+    s += std::string(m) + " " + wire_path + "?" + query_k + "=" + query_v + " " + ver + "\r\n";
     for (auto &h : hdr) s += h.first + ": " + h.second + "\r\n";
     s += "\r\n";
     s += body;
@@ -449,7 +452,13 @@ void execute(const sim::Plan &plan) {
   long cut = -1;
   if (hostile) {
     for (const sim::Op &op : plan.ops) {
-      if (op.kind == "mut" && !stream.empty()) stream[(size_t)(std::max(0L, op.arg(0)) % (long)stream.size())] = (char)(op.arg(1) & 0xff);
+      if (op.kind == "tgt") {
+        static const char *const T[] = {"/100%\xe4\xb8\xad", "/a%", "/a%4", "/a%zz", "/a%\xff\xff", "/%00", "/a?x=%\x80\x80", "/a;p=%\xfe1", "/a#%\xc0\xc0", "/a?%\xe4=1",
+                                        "/a%4\xff", "/%\x80", "/a?k=%", "/a?k=%1", "/a%%%", "/a?x=%f\xff&y=%\xff" "f"};
+        stream = std::string("GET ") + T[((op.arg(0) % 16) + 16) % 16] + " HTTP/1.1\r\nContent-Length: 0\r\n\r\n" + stream;
+        sim::probe("hostile_targets");
+      }
+      else if (op.kind == "mut" && !stream.empty()) stream[(size_t)(std::max(0L, op.arg(0)) % (long)stream.size())] = (char)(op.arg(1) & 0xff);
       else if (op.kind == "junk") { sim::Rng jr((uint64_t)op.arg(1) + 77); long n = std::max(1L, std::min(2000L, op.arg(0))); for (long i = 0; i < n; ++i) stream.push_back((char)jr.below(256)); }
       else if (op.kind == "cut") cut = std::max(0L, op.arg(0));
     }
